@@ -1529,7 +1529,12 @@ class AllConnGraph(nx.DiGraph):
                 if indices is None:
                     model._inputs._abs_set_val(node[1], tval)
                 else:
-                    model._inputs._abs_set_val(node[1], tval, idx=indices())
+                    idx = indices()
+                    if np.ndim(tval) > 0 and np.size(tval) == 1 and \
+                            np.ndim(model._inputs._abs_get_val(node[1], flat=False)[idx]) == 0:
+                        # a single entry is addressed (e.g. indices=-1): store a scalar
+                        tval = np.reshape(tval, ())
+                    model._inputs._abs_set_val(node[1], tval, idx=idx)
         else:
             srcval = src_meta.val
 
